@@ -13,7 +13,8 @@ CLS_WORDS = ['Train', 'TrainData', 'TrainX', 'Data', 'DataX', 'Model', 'Eval', '
 GROUPS = [None, None, 'g', 'xg', 'g:h', 'h', 'gx']
 NS_WORDS = ['n', 'xn', 'nx', 'm', 'train', 'tr', 'valid', 'a', 'ab']
 PARAM_NAMES = ['p', 'q', 'size', 'dim', 'dim2', 'lr', 'lr2', 'alpha', 'opt', 'flag', 'names', 'cfgmap']
-DATA_KINDS = ['json_dict', 'json_dict', 'json_list', 'str', 'int', 'numpy', 'pandas', 'generator', 'lazy', 'listnp', 'dir', 'continues', 'memory']
+DATA_KINDS = ['json_dict', 'json_dict', 'json_list', 'str', 'int', 'numpy', 'pandas', 'generator', 'lazy', 'listnp', 'dir', 'continues', 'memory',
+              'json_dict', 'numpy', 'dir', 'generator', 'empty_gen', 'empty_listnp', 'empty_dir']
 STR_ALPHABET = ['a', 'b', 'x', "'", '"', ', ', ': ', '###', '$$$', '=', '[', ']', 'é', ' ', '\\', '\n', '0']
 
 DEFAULT_FEAT = {
@@ -125,16 +126,23 @@ def gen_spec(rng: random.Random, feat=None):
         ext = 'yaml' if feat['yaml'] and rng.random() < 0.4 else 'json'
         fnames.append(f'cfg/{rng.choice(["conf", "c", "pipeline", "x"])}{mi}.{ext}')
     mounts = {}   # (k, j) -> as | None
+    extra_mounts = []   # (k, j, as): the same file mounted a second time under another namespace
     # every namespace word is used once per spec: a reference that starts with the declaring task's own namespace is read as
     # absolute by the library and as relative by the documentation's rule (don't-care zone, DESIGN.md A.5)
     ns_words = rng.sample(NS_WORDS, len(NS_WORDS))
     spec_ns_words = ns_words
+    word_of_file = {}
     for k in range(n_mod):
         for j in range(k + 1, n_mod):
             if rng.random() < 0.7 or j == k + 1:
-                ns = ns_words.pop() if feat['namespaces'] and rng.random() < 0.6 and ns_words else None
-                if ns and rng.random() < 0.15 and ns_words:
-                    ns = ns + '::' + ns_words.pop()
+                ns = None
+                if feat['namespaces'] and rng.random() < 0.6:
+                    if j not in word_of_file and ns_words:
+                        w = ns_words.pop()
+                        if rng.random() < 0.15 and ns_words:
+                            w = w + '::' + ns_words.pop()
+                        word_of_file[j] = w
+                    ns = word_of_file.get(j)
                 mounts[(k, j)] = ns
     mod_path = lambda m: '.'.join([pkg] + ([m['package']] if m.get('package') else []) + [m['name']])  # noqa
     for mi, m in enumerate(modules):
@@ -154,7 +162,9 @@ def gen_spec(rng: random.Random, feat=None):
         if feat['same_file_twice'] and pdata['uses'] and rng.random() < 0.25:
             u = rng.choice(pdata['uses'])
             if ns_words:
-                pdata['uses'].append({'file': u['file'], 'as': ns_words.pop()})
+                w2 = ns_words.pop()
+                pdata['uses'].append({'file': u['file'], 'as': w2})
+                extra_mounts.append((mi, fnames.index(u['file']), w2))
         rng.shuffle(pdata['uses'])
         files[fnames[mi]] = {'parts': {'': pdata}}
     spec['files'] = files
@@ -191,6 +201,21 @@ def gen_spec(rng: random.Random, feat=None):
                         if v is not None and not isinstance(v, py):
                             p.pop('dtype', None)
                             break
+    if feat.get('dup_module_file', True) and n_mod >= 2 and rng.random() < 0.3 and ns_words:
+        j = rng.randrange(1, n_mod)
+        src_f = files[fnames[j]]['parts']['']
+        dup = copy.deepcopy(src_f)
+        mp = mod_path(modules[j])
+        conc = [t for t in modules[j]['tasks'] if not t.get('abstract')]
+        if 'excluded_tasks' in dup:
+            dup.pop('excluded_tasks')
+        elif len(conc) > 1 and dup['tasks'] == [mp + '.*']:
+            # exclude a class no other task of the module depends on is not known yet (inputs come later): exclusion goes to the copy
+            dup['excluded_tasks'] = [f'{mp}.{conc[-1]["cls"]}']
+        dup_name = f'cfg/dup{j}.json'
+        files[dup_name] = {'parts': {'': dup}}
+        files[fnames[0]]['parts']['']['uses'].append({'file': dup_name, 'as': ns_words.pop()})
+        spec['dup_file'] = dup_name
     # ---- multi-config wrapping ---------------------------------------------------------------------------------
     if feat['multi_config']:
         for fname in list(files):
@@ -230,8 +255,9 @@ def gen_spec(rng: random.Random, feat=None):
                             x['part'] = pname
                     break
     # ---- inputs ------------------------------------------------------------------------------------------------
-    add_inputs(rng, spec, fnames, mounts, feat)
+    add_inputs(rng, spec, fnames, mounts, feat, extra_mounts)
     spec['fnames'] = fnames
+    spec['extra_mounts'] = extra_mounts
     spec['free_ns_words'] = list(ns_words)
     return spec
 
@@ -263,7 +289,7 @@ def slug_of(ts, pkg, module):
     return (group + ':' + name) if group else name
 
 
-def add_inputs(rng, spec, fnames, mounts, feat):
+def add_inputs(rng, spec, fnames, mounts, feat, extra_mounts=()):
     modules = spec['modules']
     pkg = spec['pkg']
     n_mod = len(modules)
@@ -280,8 +306,22 @@ def add_inputs(rng, spec, fnames, mounts, feat):
                 for u in modules[j]['tasks']:
                     if not u.get('abstract'):
                         cands.append((j, rel, u))
+            # second mount of the same file: the same task under another namespace is a different input
+            for (k2, j2, w2) in extra_mounts:
+                if k2 == mi:
+                    for u in modules[j2]['tasks']:
+                        if not u.get('abstract'):
+                            cands.append((j2, tuple(w2.split('::')), u))
             rng.shuffle(cands)
             chosen = cands[:rng.choice([0, 1, 1, 2, 2, 3])]
+            # the same upstream task taken from both mounts of one file (train/valid pattern)
+            for (j, rel, u) in list(chosen):
+                twins = [(j2, tuple(w2.split('::')), u) for (k2, j2, w2) in extra_mounts if k2 == mi and j2 == j and tuple(w2.split('::')) != rel]
+                twins += [(j, r2, u) for (j_, r2) in reach[mi] if j_ == j and r2 != rel and len(r2) == 1 and any(k2 == mi and j2 == j for (k2, j2, _) in extra_mounts)]
+                if twins and rng.random() < 0.6:
+                    tw = rng.choice(twins)
+                    if tw not in chosen:
+                        chosen.append(tw)
             bare_seen = set(p['name'] for p in t['params'])
             inputs = []
             idx = 0
@@ -306,7 +346,7 @@ def add_inputs(rng, spec, fnames, mounts, feat):
                 if feat['optional_inputs'] and rng.random() < 0.12:
                     inp['optional'] = True
                     inp['default'] = rng.choice([None, 0, 'dflt', [1]])
-                    if rng.random() < 0.5:
+                    if rng.random() < 0.5 and not rel:
                         inp['in_parameters'] = True
                 # access style
                 if bare.isidentifier() and bare not in bare_seen and rng.random() < 0.5:
@@ -330,6 +370,17 @@ def add_inputs(rng, spec, fnames, mounts, feat):
                 final.append(inp)
             bares = [i['_bare'] for i in final]
             for inp in final:
+                if inp.get('optional'):
+                    # an absent optional input is registered under its declared name: only the declared spelling (no namespace part)
+                    # or the position addresses it whether or not the task exists
+                    if inp.get('in_parameters'):
+                        inp['access'], inp['registry_key'] = 'registry', inp.get('ref', inp['_bare']) if inp['form'] != 'class' else None
+                        if inp['registry_key'] is None:
+                            inp['in_parameters'] = False
+                        inp.pop('arg', None)
+                    if not inp.get('in_parameters'):
+                        inp['access'], inp['index'] = 'index', None
+                        inp.pop('arg', None)
                 if bares.count(inp['_bare']) > 1 or inp['_bare'] in bare_seen:
                     if inp.get('in_parameters'):
                         inp['in_parameters'] = False
@@ -568,3 +619,54 @@ def inject_error(rng, spec, kind):
                         return f'{t["cls"]} declared by {fname} and by {u["file"]} in the same namespace'
         return None
     raise ValueError(kind)
+
+
+# ---- directed family: one pipeline mounted under two namespaces and consumed from both (train/valid pattern) ---------------
+
+def twin_spec(rng, feat=None):
+    """-> (spec, roots): roots differ only in which mount gets which value (incl. the swapped assignment)"""
+    feat = {**DEFAULT_FEAT, **(feat or {})}
+    pkg = 'labt_' + ''.join(rng.choice('abcdefghijklmnop') for _ in range(8))
+    n1, n2 = rng.sample(['train', 'valid', 'n', 'xn', 'tr', 'test'], 2)
+    kinds = feat['data_kinds']
+    grp = rng.choice([None, 'g', 'g:h'])
+    x = {'cls': 'Dataset', 'data_kind': rng.choice(kinds), 'params': [{'name': 'p', 'access': rng.choice(['args', None])},
+                                                                       {'name': 'noise', 'default': 0, 'ignore': True}], 'inputs': []}
+    if grp:
+        x['group'] = grp
+    up_tasks = [x]
+    xslug = (grp + ':' if grp else '') + 'dataset'
+    target, tslug = x, xslug
+    if rng.random() < 0.5:
+        y = {'cls': 'Features', 'data_kind': rng.choice(kinds), 'params': [{'name': 'dim', 'default': 3}],
+             'inputs': [{'form': 'class', 'ref_class': 'Dataset', 'ref_class_path': f'{pkg}.up.Dataset', 'access': 'index', 'index': 0}]}
+        up_tasks.append(y)
+        if rng.random() < 0.7:
+            target, tslug = y, 'features'
+    bare = tslug.split(':')[-1]
+    t_inputs = [{'form': 'ns_name', 'ref': f'{n1}::{rng.choice([tslug, bare])}', 'access': 'index', 'index': 0},
+                {'form': 'ns_name', 'ref': f'{n2}::{rng.choice([tslug, bare])}', 'access': 'index', 'index': 1}]
+    if rng.random() < 0.5:
+        t_inputs.reverse()
+        t_inputs[0]['index'], t_inputs[1]['index'] = 0, 1
+    t = {'cls': 'Model', 'data_kind': rng.choice(kinds), 'params': [{'name': 'lr', 'default': 0.5}], 'inputs': t_inputs}
+    top_tasks = [t]
+    if rng.random() < 0.5:
+        top_tasks.append({'cls': 'Report', 'data_kind': rng.choice(kinds), 'params': [],
+                          'inputs': [{'form': 'class', 'ref_class': 'Model', 'ref_class_path': f'{pkg}.top.Model', 'access': 'index', 'index': 0}]})
+    v0 = rng.choice([1, 'a', [1, 2], {'k': 1}, 2.5])
+    spec = {'pkg': pkg, 'modules': [{'name': 'up', 'package': None, 'tasks': up_tasks}, {'name': 'top', 'package': None, 'tasks': top_tasks}],
+            'files': {'cfg/up.json': {'parts': {'': {'tasks': [f'{pkg}.up.*'], 'values': {'p': v0}, 'uses': []}}},
+                      'cfg/top.yaml': {'parts': {'': {'tasks': [f'{pkg}.top.*'], 'values': {},
+                                                      'uses': [{'file': 'cfg/up.json', 'as': n1}, {'file': 'cfg/up.json', 'as': n2}]}}}},
+            'context_files': {}, 'placeholders': None, 'fnames': ['cfg/top.yaml', 'cfg/up.json'], 'free_ns_words': ['m', 'ab'], 'extra_mounts': [(0, 1, n2)]}
+    a = same_type_value(rng, v0)
+    b = same_type_value(rng, a)
+    roots = []
+    for (va, vb) in ((a, b), (b, a), (a, a)):
+        roots.append({'file': 'cfg/top.yaml', 'context': [{'kind': 'dict', 'data': {'for_namespaces': {n1: {'p': va}, n2: {'p': vb}}}}], 'context_single': True})
+    roots.append({'file': 'cfg/top.yaml'})
+    if rng.random() < 0.5:
+        roots.append({'file': 'cfg/up.json', 'context': [{'kind': 'dict', 'data': {'p': a}}], 'context_single': True})
+    rng.shuffle(roots)
+    return spec, roots
